@@ -17,6 +17,8 @@ def oracle_case(spec, evs, res):
     Returns list of (step index, what, key, expected, observed); stops at the first wedge."""
     bad = []
     mtu, connected = 23, True
+    kinds = {r["handle"]: r["kind"] for r in U.flatten(spec)}
+    acked = []                # handles of the Prepare Write Requests acknowledged since the last execute
     for k, (ev, st) in enumerate(zip(evs, res["steps"])):
         out = [bytes.fromhex(x) for x in st["out"]]
         if ev["op"] == "conn":
@@ -24,7 +26,7 @@ def oracle_case(spec, evs, res):
                 connected, mtu = True, 23
             continue
         if ev["op"] == "disc":
-            connected = False
+            connected, acked = False, []
             continue
         if ev["op"] == "set":
             for p in out:
@@ -51,6 +53,16 @@ def oracle_case(spec, evs, res):
         elif kind == "Indication":
             if [p.hex() for p in rsp] != ["1e"]:
                 bad.append((k, "indication not answered by exactly one confirmation", None, ["1e"], st["out"]))
+        # an acknowledged long write must not be dropped silently
+        if kind == "PrepareWrite" and rsp[:1] and rsp[0][:1] == b"\x17":
+            acked.append(r[1])
+        elif kind == "ExecuteWrite" and rsp:
+            if r[1] == 1 and rsp[0][:1] == b"\x19":
+                lost = [h for h in acked if kinds.get(h) != "KValue"]
+                if lost:
+                    bad.append((k, "Execute Write Response although the acknowledged Prepare Write on handle %d (%s) was not performed"
+                                % (lost[0], kinds.get(lost[0])), None, "an error, or the Prepare Write refused", st["out"]))
+            acked = []
         for p in out:
             if len(p) > mtu:
                 bad.append((k, "PDU of %d bytes exceeds the MTU %d" % (len(p), mtu), None, "<= %d" % mtu, p.hex()))
@@ -71,6 +83,10 @@ def oracle_case(spec, evs, res):
             break
         if kind == "ExchangeMtu" and r[1] >= 23 and out and out[0][0] == 3:
             mtu = max(23, min(r[1], struct.unpack("<H", out[0][1:3])[0]))
+    else:
+        if res.get("fault_probe") is False:
+            bad.append((len(evs) - 1, "server does not answer the next request after the ATT layer raised while a handler was "
+                        "sending its answer (fault probe at the end of the history)", None, "probe answered", "no answer"))
     return bad
 
 
@@ -120,13 +136,14 @@ def run(ctx):
         "Coq 8.16.1 kernel + vm_compute (no native_compute); theorems closed under the global context (Print Assumptions checked each run)",
         "hand-written model coq/theories/C07/Model.v (variant V_fixed) tied to whad/ble/stack/gatt/__init__.py, att/__init__.py, gatt/attrlist.py, profile/*.py by the correspondence of this run",
         "scapy ATT dissect/build (requests are encoded by the harness, dissected by scapy; answers are compared as bytes)",
-        "hook oracle: user hooks only return / raise; a hook that mutates the profile or re-enters the stack is outside the model",
+        "hook oracle: a user hook returns an object, raises (HookReturn* or any other Exception) and may assign one characteristic value before that; hooks that change the structure of the profile, send PDUs themselves, block, or raise BaseException subclasses are outside the model",
         "threading.Lock replaced by a non-blocking lock of the same interface (acquire on a held lock = the real server blocks for ever)",
         "single-threaded delivery of PDUs (the lock is the only concurrency device modelled)",
     ]
     ctx.assumptions = ["attribute database well-formed (sorted unique handles 1..65535, declaration followed by its value, CCCD values of 2 bytes, UUIDs of 2 or 16 bytes, properties < 256)",
                        "each request fits the MTU in force and has 16-bit fields (what scapy can dissect)",
-                       "one_response: hooks return, override or raise a HookReturn* exception and the 'written' hook returns (complement = listed findings)"]
+                       "never_wedges / one_response: no GATT procedure lock is held in the initial state (true of every fresh connection; an invariant by the theorem itself)",
+                       "fault probe (outside the model, end of every history): the ATT layer raises while a handler sends its answer; the next request must be answered (txlock releases in a finally clause)"]
     proofs_ok, detail = ctx.check_proofs(lib_targets=["theories/Lib/Bytes.vo"])
     ctx.log("proofs:", proofs_ok, detail.splitlines()[0][:200])
 
@@ -207,10 +224,10 @@ def run(ctx):
                                "uncovered_branches": [p for p in expected_pairs if p not in pairs]}
     g = [i for i, m in enumerate(meta) if m["kind"] == "generated"]
     ctx.cov["samples"] = [{"events": [U.ev_to_json(e) for e in cases[i][1][:4]], "impl": res[i]["steps"][:4]} for i in g[:3]]
-    ctx.cov["source_ties"] = [C.source_tie("whad/ble/stack/gatt/__init__.py", 43, 53),
-                              C.source_tie("whad/ble/stack/gatt/__init__.py", 1200, 2520),
-                              C.source_tie("whad/ble/stack/att/__init__.py", 90, 180),
-                              C.source_tie("whad/ble/stack/att/__init__.py", 505, 800),
+    ctx.cov["source_ties"] = [C.source_tie("whad/ble/stack/gatt/__init__.py", 30, 80),
+                              C.source_tie("whad/ble/stack/gatt/__init__.py", 1205, 2642),
+                              C.source_tie("whad/ble/stack/att/__init__.py", 42, 190),
+                              C.source_tie("whad/ble/stack/att/__init__.py", 525, 815),
                               C.source_tie("whad/ble/stack/gatt/attrlist.py", 166, 212),
                               C.source_tie("whad/ble/profile/__init__.py", 488, 520),
                               C.source_tie("whad/ble/profile/characteristic.py", 508, 525)]
